@@ -883,8 +883,8 @@ fn run_client(c: &ClientCase, o: &mut Outcome) -> Result<(), Failure> {
     o.label_if(c.warm_up != 0, "cli_configured_after_first_call");
     if c.warm_up != 0 {
         // a first call on the not-yet-configured client (its outcome does not matter)
-        let mut c0 = client.clone();
-        let _ = block_on_budget(4096, async move { c0.unary(tonic::Request::new(b"warm-up".to_vec())).await });
+        // (on this very client, not on a clone: per-client state must not leak into later configuration)
+        let _ = block_on_budget(4096, async { client.unary(tonic::Request::new(b"warm-up".to_vec())).await });
         log.lock().unwrap().clear();
         if c.warm_up & 2 != 0 {
             client = client.clone();
